@@ -21,14 +21,16 @@ vars == <<seed, toks, nedits>>
 
 Classes == <<"x", "struct", "union", "route", "alias", "(", ")", "=", "?", "NL", "IN", "DE", "\"s\"", "1", ".", ",">>
 Pool == <<"x", "struct", "union_closed", "route", "alias", "import", "namespace", "extends", "patch", "annotation",
-          "attrs", "example", "deprecated", "by", "(", ")", "=", "?", ".", ",", ":", "[", "]", "{", "}", "@", "*",
+          "attrs", "example", "doc", "error", "deprecated", "by", "(", ")", "=", "?", ".", ",", ":", "[", "]", "{", "}", "@", "*",
           "NL", "IN", "DE", "\"s\"", "1", "-1", "1.5", "true", "null", "Void", "List", "String", "$", "\"unterminated">>
 
 \* valid specs as token sequences
 Seeds == <<
   <<"namespace", "nsa", "NL", "struct", "S", "NL", "IN", "\"doc\"", "NL", "f", "Int32", "=", "1", "NL", "g", "List", "(", "String",
     ",", "max_items", "=", "2", ")", "?", "NL", "example", "default", "NL", "IN", "f", "=", "2", "NL", "g", "=", "null", "NL",
-    "DE", "DE">>,
+    "DE", "example", "other", "NL", "IN", "\"doc\"", "NL", "g", "=", "[", "\"a\"", ",", "\"b\"", "]", "NL", "DE",
+    "DE", "union", "U", "NL", "IN", "a", "NL", "b", "S", "NL", "example", "default", "NL", "IN", "a", "=", "null", "NL", "DE",
+    "example", "second", "NL", "IN", "b", "=", "default", "NL", "DE", "DE">>,
   <<"namespace", "nsa", "NL", "import", "nsb", "NL", "union", "U", "extends", "nsb", ".", "V", "NL", "IN", "a", "NL", "b", "S", "NL",
     "IN", "\"doc\"", "NL", "DE", "DE", "struct", "S", "NL", "IN", "union", "NL", "IN", "t", "T", "NL", "DE", "k", "Int32", "NL",
     "DE", "struct", "T", "extends", "S", "NL", "IN", "m", "Map", "(", "String", ",", "Int32", ")", "NL", "DE">>,
@@ -68,7 +70,7 @@ InShard == Mode = "edits" \/ toks = <<>> \/
            (\E i \in DOMAIN Classes : Classes[i] = toks[1] /\ i % NShards = Shard)
 \* the outcome space of the frontend on any text (the property replayed on the implementation)
 Outcomes == {"api", "spec_error"}
-TypeOK == nedits \in 0..MaxEdits /\ Len(toks) <= 80
+TypeOK == nedits \in 0..MaxEdits /\ Len(toks) <= 120
 Emit == IF EmitVectors /\ (nedits > 0 \/ (Mode = "strings" /\ toks # <<>>))
         THEN PrintT(<<"VEC", ToJson([mode |-> Mode, seed |-> seed, toks |-> toks, nedits |-> nedits])>>) ELSE TRUE
 =============================================================================
